@@ -118,6 +118,14 @@ void symx_native_assert(int c, const char *msg) {
 /* harness objects compiled with -DSYMX_NATIVE call these directly */
 void __CPROVER_assume(bool c) { symx_native_assume(c); }
 void __CPROVER_assert(bool c, const char *msg) { symx_native_assert(c, msg); }
+/* native stand-in for the checker's uninterpreted digest function (harness/FFTP.cpp): any fixed function will do */
+uint64_t __CPROVER_uninterpreted_xf(uint64_t tag, uint64_t d, uint64_t c0, uint64_t c1, uint64_t c2, uint64_t c3, uint64_t c4, uint64_t c5, uint64_t c6,
+                                    uint64_t c7, uint64_t c8, uint64_t c9, uint64_t c10, uint64_t c11, uint64_t c12, uint64_t c13, uint64_t c14) {
+    uint64_t v[17] = {tag, d, c0, c1, c2, c3, c4, c5, c6, c7, c8, c9, c10, c11, c12, c13, c14};
+    uint64_t h = 0xcbf29ce484222325ULL;
+    for (int i = 0; i < 17; i++) { h = (h ^ v[i]) * 0x100000001b3ULL; h ^= h >> 31; }
+    return h;
+}
 void symx_witness(void) {}
 void symx_run_ctors(void) __attribute__((weak));
 void symx_run_ctors(void) {}
